@@ -188,6 +188,8 @@ class MemSock(object):
         self.n_partial = 0
         self.closed = False
         self.dead = None    # once a fault fired: errno to keep raising
+        self.dead_send = None   # sends fail, receives still drain the queue
+        self.alert_bytes = b"\x15\x03\x01\x00\x02\x02\x28"
         self.min_piece = None
         self.max_piece = None
         self.real_block = False
@@ -255,7 +257,18 @@ class MemSock(object):
         if self.dead is not None:
             raise socket.error(
                 self.dead if self.dead != "eof" else errno.EPIPE, "injected")
+        if self.dead_send is not None:
+            raise socket.error(self.dead_send, "injected")
         f = self._fault("send", idx)
+        if f == "alert_epipe":
+            # the peer wrote a fatal alert and closed: our send fails while
+            # the alert sits unread in our receive queue
+            self.link.inject(self.inn, self.alert_bytes)
+            self.link.close_dir(self.inn)
+            self.link.close_dir(self.out)
+            self.dead_send = errno.EPIPE
+            self.dead_kind = "alert_epipe"
+            raise socket.error(errno.EPIPE, "injected epipe, alert pending")
         if f == "epipe":
             self._die(errno.EPIPE)
             raise socket.error(errno.EPIPE, "injected epipe")
